@@ -1,5 +1,5 @@
 import PyYetiVerif.Props.C12
-import PyYetiVerif.Lemmas.NasFloatPick
+import PyYetiVerif.Lemmas.NasFloatPickNeg
 /-!
 # C12, extension — the accuracy of `format_float8/16` over the whole dispatch; the mixed branch
 
@@ -130,5 +130,39 @@ example : (∃ x : Dbl, x.neg = false ∧ 0 < x.num ∧ 0 < x.den ∧ x.num < x.
     formatScientific 8 sci8 ⟨false, 5, 10000⟩ = "    5.-4".toList :=
   ⟨⟨⟨false, 5, 10000⟩, rfl, by decide, by decide, by decide, by decide +kernel, by decide +kernel, by decide,
     by decide⟩, by decide +kernel, by decide +kernel⟩
+
+/-- **which alternative the negative mixed branch picks** (`value > -0.01`), for printed exponents
+whose last digit is not `0`.  `fx0 = -0.000ddd` is the `%W.pf` rendering stripped of its zeros (what
+the length test and the comparison see), `fx = -.000ddd` what is emitted: the branch returns `fx`
+**iff** `N > 0`, `fx0` is at most `W` characters wide and the scientific field `fs` and `fx0` read as
+the same double; otherwise `fs`.  (For an exponent like `-10` the code's `field.strip(" 0-")` also
+strips the exponent's last zero and compares with a different number: that decade — `1e-10 ≤ |x| <
+1e-9` of the 16-wide formatter — is covered by `format_float_accuracy` and the exact correspondence
+only.) -/
+theorem mixed_branch_picks_neg (W p : Nat) (c : Sci) (hc : SciOK W c 0) (hp : 1 ≤ p) (hp2 : p + 1 ≤ 250)
+    (hpd : p % 10 ≠ 0 ∧ (p + 1) % 10 ≠ 0) (x : Dbl)
+    (hneg : x.neg = true) (hn : 0 < x.num) (hd : 0 < x.den) (hlt1 : x.num < x.den)
+    (hlo : x.den ≤ 10 ^ 999 * x.num) (hhi : x.num < 10 ^ 999 * x.den)
+    (hlow : x.den ≤ 10 ^ (p + 1) * x.num)
+    (h8 : W = 8 → x.den ≤ 10 ^ 9 * x.num ∧ x.num * 10 ^ 1 < x.den)
+    (he0 : (sciExp c x).natAbs % 10 ≠ 0) :
+    ∃ fs : Fld, fs.wf = true ∧ fs.text.length ≤ W ∧ formatScientific W c x = rjust W fs.text ∧
+      |decRat fs.dec - dblRat x| ≤ sciBound c x ∧
+      smallNeg W p c x =
+        if 0 < rheDiv (x.num * 10 ^ p) x.den ∧
+            (fixedFld true false p (rheDiv (x.num * 10 ^ p) x.den)).text.length ≤ W ∧
+            dblEq fs.bits (fixedFld true false p (rheDiv (x.num * 10 ^ p) x.den)).bits = true
+        then rjust W (fixedFld true true p (rheDiv (x.num * 10 ^ p) x.den)).text
+        else rjust W fs.text :=
+  smallNeg_choice W p c hc hp hp2 hpd x hneg hn hd hlt1 hlo hhi hlow h8 he0
+
+/-- non-vacuity: `x = -0.0005` in the 8-wide negative mixed branch (`p = 6`, exponent `-4`); the
+fixed alternative `-.0005` is emitted. -/
+example : (∃ x : Dbl, x.neg = true ∧ 0 < x.num ∧ 0 < x.den ∧ x.num < x.den ∧ x.den ≤ 10 ^ 999 * x.num ∧
+      x.num < 10 ^ 999 * x.den ∧ x.den ≤ 10 ^ (6 + 1) * x.num ∧ x.den ≤ 10 ^ 9 * x.num ∧ x.num * 10 ^ 1 < x.den ∧
+      (sciExp sci8 x).natAbs % 10 ≠ 0) ∧
+    smallNeg 8 6 sci8 ⟨true, 5, 10000⟩ = "  -.0005".toList :=
+  ⟨⟨⟨true, 5, 10000⟩, rfl, by decide, by decide, by decide, by decide +kernel, by decide +kernel, by decide,
+    by decide, by decide, by decide +kernel⟩, by decide +kernel⟩
 
 end PyYetiVerif.C12
